@@ -130,7 +130,19 @@ def model_lines(binpath, lines, timeout=600):
 # ----------------------------------------------------------------------------------------------
 # classification of a failing case (stable labels computed from the case itself)
 
+def multi_label_continue(prog):
+    """`a: b: loop` with a `continue` to a label of the set other than the innermost one."""
+    for m in re.finditer(r"((?:\b\w+:\s*){2,})(?:do|while|for)\b", prog):
+        labels = re.findall(r"(\w+):", m.group(1))
+        for lab in labels[:-1]:
+            if re.search(r"\bcontinue\s+%s\b" % re.escape(lab), prog):
+                return True
+    return False
+
+
 def classify(symptom, prog, completion, origin):
+    if multi_label_continue(prog) and symptom in ("overrun", "swallowed", "finally-ran", "cfg-cycle", "form-mismatch", "hang", "wrong-completion"):
+        return "multi-label-continue-skips-counter"
     if symptom == "panic" and "is_throw_completion" in completion:
         return "async-generator-limit-panic"
     if symptom == "misreported-as-engine-panic":
@@ -205,7 +217,10 @@ def cfg_stage(run, jsbin, modelbin, programs, findings):
             stats["counters"] += sum(1 for nd in nodes if nd["kind"] == "counter")
             if verdict != "1" or probs:
                 names = sorted(set(nodes[i]["name"] for i in (cyc or [])))
-                findings.append({"kind": "correspondence-broken", "class": "cfg-cycle-without-counter:" + "+".join(names)[:120],
+                cls = classify("cfg-cycle", text, "", "cfg")
+                if cls == "cfg:cfg-cycle":
+                    cls = "cfg-cycle-without-counter:" + "+".join(names)[:120]
+                findings.append({"kind": "correspondence-broken" if not multi_label_continue(text) else "counterexample", "class": cls,
                                  "obligation": "counters_cut_cycles (extracted) accepts the CFG of every dumped block (cut = IncrementLoopIteration, suspension points, IteratorReturn)",
                                  "input": text, "block": b.name, "verdict": verdict, "reader_problems": probs[:3],
                                  "cycle": [(nodes[i]["pc"], nodes[i]["name"]) for i in (cyc or [])][:40]})
@@ -252,6 +267,25 @@ FORMS = {
 }
 
 
+# variants of the loop forms with the same lowering order (a `continue` is a jump to the form's continue target: the loop
+# head for while/for-of/for-in, the counter in front of the condition for do-while, the counter in front of the update for
+# `for`), so the model's prediction is that of the base form.  {V} = safety valve for variants boa may fail to stop.
+FORM_VARIANTS = [
+    ("while+continue", "while", "var i = 0; while (i < {N}) { print('b'); i++; continue; }"),
+    ("do+continue", "do", "var i = 0; do { print('b'); i++; continue; } while (i < {N});"),
+    ("do+continue-own-label", "do", "var i = 0; d: do { print('b'); i++; continue d; } while (i < {N});"),
+    ("do+continue-finally", "do", "var i = 0; do { try { print('b'); i++; continue; } finally { } } while (i < {N});"),
+    ("do+continue-from-nested", "do", "var i = 0; o: do { print('b'); i++; do { continue o; } while (false); } while (i < {N});"),
+    ("for+continue", "for", "for (var i = 0; i < {N}; i++) { print('b'); continue; }"),
+    ("for+continue-finally", "for", "for (var i = 0; i < {N}; i++) { try { print('b'); continue; } finally { } }"),
+    ("for-of+continue", "for-of", "for (var x of Array({N}).fill(0)) { print('b'); continue; }"),
+    ("for-in+continue", "for-in", "for (var x in {OBJ}) { print('b'); continue; }"),
+    ("do+2-labels+continue-outer", "do", "var i = 0, v = 0; a: b: do { print('b'); i++; if (++v > 300) break; continue a; } while (i < {N});"),
+    ("for+2-labels+continue-outer", "for", "var v = 0; a: b: for (var i = 0; i < {N}; i++) { print('b'); if (++v > 300) break; continue a; }"),
+    ("while+3-labels+continue-middle", "while", "var i = 0; a: b: c: while (i < {N}) { print('b'); i++; continue b; }"),
+]
+
+
 def form_choices(instrs, test_pc, n, cap=5000):
     """Walk the abstract code with 'continue n times then exit' at the loop test; returns the choice list."""
     pc, left, chs = 0, n, []
@@ -283,32 +317,34 @@ def form_choices(instrs, test_pc, n, cap=5000):
 def forms_stage(run, jsbin, modelbin, findings):
     Ls = [0, 1, 2, 7] if run.quick else [0, 1, 2, 3, 7, 20, 100]
     jobs, meta, mlines = [], [], []
-    for name, (tpl, instrs, test_pc, body_pc) in FORMS.items():
-        for L in Ls:
-            for n in sorted(set([0, 1, max(L - 1, 0), L, L + 1, L + 2, L + 3, L + 5])):
+    allforms = [(name, name, v[0]) for name, v in FORMS.items()] + [(vn, base, tpl) for vn, base, tpl in FORM_VARIANTS]
+    for name, base, tpl in allforms:
+        for L in (Ls if name == base else Ls[:3]):
+            ns = [0, 1, max(L - 1, 0), L, L + 1, L + 2, L + 3, L + 5] if name == base else [max(L, 1), L + 1, L + 2, L + 4]
+            for n in sorted(set(ns)):
                 text = tpl.replace("{N}", str(n)).replace("{OBJ}", "{" + ",".join("k%d:1" % j for j in range(n)) + "}")
                 jobs.append(("loop=%d" % L, text))
-                meta.append((name, L, n, text))
+                meta.append((name, base, L, n, text))
     res = js_many(jsbin, jobs, chunk=12)
     # for-in has the for-of lowering shape for the counter (counter, next, done?, value, body, jump)
-    for k, (name, L, n, text) in enumerate(meta):
-        instrs, test_pc, body_pc = FORMS[name][1:]
+    for k, (name, base, L, n, text) in enumerate(meta):
+        instrs, test_pc, body_pc = FORMS[base][1:]
         if instrs is None:
             instrs, test_pc, body_pc = FORMS["for-of"][1:]
         # do-while runs the body once before the first test: n bodies = n-1 positive tests (n >= 1; n = 0 behaves as 1)
         trips = n
-        if name == "do":
+        if base == "do":
             trips = max(n - 1, 0)
         chs = form_choices(instrs, test_pc, trips)
         mlines.append("V f%d %d 512 10240 0 1 4;;%s %s" % (k, L, ",".join(instrs), ",".join(str(c) for c in chs)))
     mout = model_lines(modelbin, mlines)
     agree = 0
-    for k, ((name, L, n, text), r) in enumerate(zip(meta, res)):
+    for k, ((name, base, L, n, text), r) in enumerate(zip(meta, res)):
         mo = mout.get("f%d" % k)
         if r is None or mo is None:
             run.cov["discarded"] = run.cov.get("discarded", 0) + 1
             continue
-        body_pc = FORMS[name][3] if FORMS[name][3] is not None else FORMS["for-of"][3]
+        body_pc = FORMS[base][3] if FORMS[base][3] is not None else FORMS["for-of"][3]
         mcomp = mo[0]
         mbodies = sum(1 for t in mo[1:] if t == "x1.0.%d" % body_pc)
         icomp = "L:LoopIteration" if r[2].startswith("L:LoopIteration") else ("R" if r[2].startswith("V:") else r[2])
@@ -319,7 +355,9 @@ def forms_stage(run, jsbin, modelbin, findings):
         if (mcomp, mbodies) == (icomp, ibodies) and r[0] == "ok":
             agree += 1
         else:
-            findings.append({"kind": "correspondence-broken", "class": "loop-counter-semantics:" + name,
+            cls = classify("form-mismatch", text, r[2], "form")
+            findings.append({"kind": "correspondence-broken" if cls == "form:form-mismatch" else "counterexample",
+                             "class": ("loop-counter-semantics:" + name) if cls == "form:form-mismatch" else cls,
                              "obligation": "Model_C08.step/ICounter (error iff previous count > max) on the lowering order of compile_%s_loop vs boa" % name.replace("-", "_"),
                              "input": text, "cfg": "loop=%d" % L, "model_output": [mcomp, mbodies], "impl_output": [r[0], icomp, ibodies]})
     run.cov["loop_form_cases"] = len(meta)
@@ -398,6 +436,87 @@ def depth_stage(run, jsbin, modelbin, findings):
 
 
 # ----------------------------------------------------------------------------------------------
+# tie 2c: stack-size accounting (stack.len() at every check point), extracted VM model vs boa
+
+# route -> number of arguments the native passes to the function it calls (JsObject::call pushes this, func, args)
+STACK_ARGC = {"call": 0, "call-method": 0, "optional-call": 0, "apply": 0, "call-call": 0, "cb-Reflect.apply": 0, "coerce-valueOf": 0,
+              "coerce-toString": 0, "getter": 0, "setter": 1, "proxy-get": 3, "proxy-has": 2, "cb-forEach": 3, "cb-map": 3, "cb-sort": 2,
+              "cb-replace-string": 3, "iterator-for-of": 0}
+
+
+# routes whose expression first runs a native constructor inside T (`new Proxy(target, handler)`): native_function_construct checks the
+# limits with this, func, the arguments and new.target still on the stack (2 + 3); modelled as a re-entry into an empty function
+STACK_PRE = {"proxy-get": 3, "proxy-has": 3}
+
+
+def stack_stage(run, jsbin, modelbin, findings):
+    """For each route and stack limit S the model (register counts read from the dump of the very program, this/func/args per
+    frame) predicts, for every recursion limit R, which of Recursion / StackSize fires first; boa is run for the R values
+    around the model's switch-over point and must give the same kind."""
+    tpl = {name: t for name, t, _ in ROUTES.ROUTES}
+    names = list(STACK_ARGC)
+    if run.quick:
+        names = [n for n in names if run.rng.random() < 0.45] or names[:3]
+    progs = {n: ROUTES.wrap_rec(tpl[n]) for n in names}
+    dumps = js_many(jsbin, [("dump=1 fresh=0", progs[n]) for n in names], chunk=20)
+    mlines, plan = [], []
+    for n, d in zip(names, dumps):
+        if d is None or d[0] != "ok":
+            continue
+        blocks = CFG.parse_dump(d[1])
+        main = blocks[0]
+        tb = [b for b in blocks if b.name == "T"]
+        if not tb:
+            continue
+        aux = [b for b in blocks if b is not main and b.name != "T" and "T" in b.bindings]
+        shape = DEPTH_ROUTES[n]
+        if shape == "hk" and len(aux) != 1:
+            run.cov["discarded"] = run.cov.get("discarded", 0) + 1
+            continue
+        regs = (int(main.header["regs"]), int(tb[0].header["regs"]), int(aux[0].header["regs"]) if aux else 0)
+        argc = STACK_ARGC[n]
+        pre = "h3.%d.p," % STACK_PRE[n] if n in STACK_PRE else ""
+        t_code = {"k": "%d;;o0:1,%sk1.%d,r" % (regs[1], pre, argc), "h": "%d;;o0:1,%sh1.%d.p,r" % (regs[1], pre, argc),
+                  "hk": "%d;;o0:1,%sh2.%d.p,r" % (regs[1], pre, argc)}[shape]
+        codes = "%d;;k1.0,r/%s/%d;;k1.0,r/0;;r" % (regs[0], t_code, regs[2])
+        for S in ([40, 90] if run.quick else [24, 40, 64, 90, 150]):
+            for R in range(1, 70):
+                mlines.append("V s.%s.%d.%d 100000 %d %d 0 1 %s %s" % (n, S, R, R, S, codes, ",".join(["1"] * (9 * R + 12))))
+            plan.append((n, S, regs))
+    mout = model_lines(modelbin, mlines) if mlines else {}
+    jobs, meta = [], []
+    for (n, S, regs) in plan:
+        kinds = {R: (mout.get("s.%s.%d.%d" % (n, S, R)) or ["?"])[0] for R in range(1, 70)}
+        sw = [R for R in range(1, 70) if kinds[R] == "L:StackSize"]
+        if not sw:
+            continue
+        t = sw[0]
+        for R in sorted(set(x for x in (2, t - 2, t - 1, t, t + 1, t + 3, 69) if 1 <= x < 70)):
+            jobs.append(("rec=%d stack=%d" % (R, S), progs[n]))
+            meta.append((n, S, R, kinds[R], t, regs))
+    res = js_many(jsbin, jobs, chunk=10)
+    agree = 0
+    for (cfg, prog), (n, S, R, mk, t, regs), r in zip(jobs, meta, res):
+        if r is None or r[0] != "ok":
+            run.cov["discarded"] = run.cov.get("discarded", 0) + 1
+            continue
+        ik = re.match(r"L:\w+", r[2])
+        ik = ik.group(0) if ik else r[2]
+        run.count(("stack", n, S, R))
+        if len(meta) and (R == t) and n == meta[0][0] and S == meta[0][1]:
+            run.sample({"stack_case": {"route": n, "S": S, "R": R, "registers(main,T,aux)": regs, "model": mk, "impl": ik, "model_switch_R": t}})
+        if ik == mk:
+            agree += 1
+        else:
+            findings.append({"kind": "correspondence-broken", "class": "stack-size-accounting:" + n,
+                             "obligation": "Model_C08 stack length at check_limits (2 + argc + register_count per frame, this/func/args of the pending call) vs boa: "
+                                           "which of Recursion / StackSize fires first",
+                             "input": prog, "cfg": cfg, "model_output": mk, "impl_output": [r[0], ik], "registers": regs, "model_switch_R": t})
+    run.cov["stack_cases"] = len(meta)
+    run.cov["stack_agree"] = agree
+
+
+# ----------------------------------------------------------------------------------------------
 # validation of the trusted successor rule and the dynamic form of the cut property (harness `lim`, depth-log hook)
 
 def lim_batch(binpath, cfg, progs, timeout):
@@ -472,7 +591,8 @@ def trace_stage(run, limbin, jobs, findings):
             for rp in r["repeats"]:
                 f = rp.split(":")
                 if len(f) == 3 and int(f[0]) in blocks:
-                    findings.append({"kind": "counterexample", "class": "loop-without-counter-dynamic:" + f[2], "symptom": "overrun",
+                    cls = classify("overrun", prog, "", "trace")
+                    findings.append({"kind": "counterexample", "class": cls if cls != "trace:overrun" else "loop-without-counter-dynamic:" + f[2], "symptom": "overrun",
                                      "input": prog, "cfg": cfg, "block": blocks[int(f[0])].name, "pc": int(f[1]),
                                      "expected": "an activation passes IncrementLoopIteration (or suspends, or pops an iterator) between two visits of the same pc"})
                 else:
@@ -491,6 +611,8 @@ def route_verdict(kind, tag, r, bound):
     status, trace, comp = r
     if status != "ok":
         return "panic"
+    if sum(1 for t in trace if t == "b") > bound:
+        return "overrun"
     where, lk = limit_of(comp)
     want = {"loop": "LoopIteration", "rec": "Recursion", "stack": "StackSize"}[kind]
     bad = [t for t in trace if t.startswith("caught") or t.startswith("finally") or t == "after"]
@@ -524,11 +646,17 @@ def routes_stage(run, jsbin, findings, corpus_first):
     routes = ROUTES.ROUTES
     L, R = 3, 16
     jobs, meta = [], []
-    bodies = ROUTES.LOOP_BODIES if not run.quick else [ROUTES.LOOP_BODIES[run.rng.randrange(len(ROUTES.LOOP_BODIES))], ROUTES.LOOP_BODIES[0]]
-    for (name, tpl, tag) in routes:
+    for ri, (name, tpl, tag) in enumerate(routes):
+        if run.quick:
+            # every route with one body (rotating over all bodies, so each body incl. the `continue`-ending ones is used
+            # several times per run) + the first route with every body
+            nb = len(ROUTES.LOOP_BODIES)
+            bodies = ROUTES.LOOP_BODIES if ri == 0 else [ROUTES.LOOP_BODIES[(ri + run.seed) % nb]]
+            if run.rng.random() < 0.3:
+                bodies = bodies + [ROUTES.LOOP_BODIES[run.rng.randrange(nb)]]
+        else:
+            bodies = ROUTES.LOOP_BODIES
         for bi, (bname, btpl) in enumerate(bodies):
-            if run.quick and bi > 0 and run.rng.random() < 0.6:
-                continue
             Lk = L if run.quick else run.rng.choice([0, 1, 2, 7])
             jobs.append(("loop=%d rec=64 stack=4096" % Lk, ROUTES.wrap_loop(tpl, btpl)))
             meta.append((name, tag, "loop", bname, Lk + 2))
@@ -757,6 +885,7 @@ def main():
         cfg_stage(run, jsbin, modelbin, cfg_programs, findings)
         forms_stage(run, jsbin, modelbin, findings)
         depth_stage(run, jsbin, modelbin, findings)
+        stack_stage(run, jsbin, modelbin, findings)
     tjobs = [("loop=100000 jobs=1", t) for t in grid_programs[:(8 if run.quick else 40)]]
     tjobs += [("loop=%d jobs=1" % run.rng.choice([2, 7]), t) for t in grid_programs[:(4 if run.quick else 20)]]
     tjobs += [("rec=%d" % run.rng.choice([7, 16]), ROUTES.wrap_rec(tpl)) for (_, tpl, tag) in ROUTES.ROUTES[run.rng.randrange(5)::(9 if run.quick else 2)] if tag == "sync"]
@@ -774,7 +903,7 @@ def main():
         f["how_to_rerun"] = "./check replay <this file>   (runs the input under the recorded cfg with harness/target/debug/js)"
         is_input = f["kind"] == "counterexample"
         found_input = found_input or is_input
-        run.violation(f, found_input=is_input or f.get("class", "").startswith(("loop-counter-semantics", "recursion-depth-accounting")))
+        run.violation(f, found_input=is_input or f.get("class", "").startswith(("loop-counter-semantics", "recursion-depth-accounting", "stack-size-accounting")))
     run.cov["findings_by_class"] = dict(Counter(f.get("class") for f in findings))
     if broken is not None:
         if not found_input:
